@@ -288,6 +288,38 @@ def run(ctx):
     en, ex = P.methods.get("__enter__"), P.methods.get("__exit__")
     if en is None or ex is None:
         raise AnalysisError("PoolHandler.__enter__/__exit__ not found")
+    def _dynamic(m_):
+        """the method reads / writes attributes under computed names (a loop over names): the value-based clauses below do not follow that"""
+        return any(isinstance(n_, ast.Call) and isinstance(n_.func, ast.Name) and n_.func.id in ("setattr", "getattr") and len(n_.args) >= 2 and not isinstance(n_.args[1], ast.Constant)
+                   for n_ in walk_no_nested(m_.node))
+
+    def _decide(m_, ok_, rule_, construct_, loc_, good_, bad_, disc=""):
+        if not ok_ and _dynamic(m_):
+            ctx.unknown(rule_, construct_, loc_, f"{m_.name} saves / restores through computed attribute names (getattr / setattr in a loop): not decided ({bad_[:80]})", disc=disc)
+        else:
+            ctx.decide(ok_, rule_, construct_, loc_, good_, bad_, disc=disc)
+
+    # state shared between handlers: a mutable object created once in the class body and mutated through self belongs to every handler, so a second context
+    # (nested, or on another instance) overwrites what the first one saved
+    shared_ = []
+    for st_ in P.node.body:
+        tgt_, val_ = (st_.targets[0], st_.value) if isinstance(st_, ast.Assign) else ((st_.target, st_.value) if isinstance(st_, ast.AnnAssign) else (None, None))
+        if isinstance(tgt_, ast.Name) and val_ is not None and (isinstance(val_, (ast.Dict, ast.List, ast.Set)) or (isinstance(val_, ast.Call) and isinstance(val_.func, ast.Name) and val_.func.id in ("dict", "list", "set"))):
+            name_ = tgt_.id
+            rebound = any(isinstance(n_, ast.Assign) and any(isinstance(t_, ast.Attribute) and t_.attr == name_ and isinstance(t_.value, ast.Name) and t_.value.id == "self" for t_ in n_.targets)
+                          for m_ in P.methods.values() if m_.name in ("__init__", "__enter__") for n_ in walk_no_nested(m_.node))
+            mutated = [(m_, n_) for m_ in P.methods.values() for n_ in walk_no_nested(m_.node)
+                       if (isinstance(n_, (ast.Assign, ast.AugAssign)) and any(isinstance(t_, ast.Subscript) and isinstance(t_.value, ast.Attribute) and t_.value.attr == name_
+                                                                                 for t_ in (n_.targets if isinstance(n_, ast.Assign) else [n_.target])))
+                       or (isinstance(n_, ast.Call) and isinstance(n_.func, ast.Attribute) and n_.func.attr in ("append", "update", "setdefault", "pop", "clear", "add", "extend")
+                           and isinstance(n_.func.value, ast.Attribute) and n_.func.value.attr == name_)]
+            if mutated and not rebound:
+                shared_.append((name_, mutated[0]))
+    ctx.decide(not shared_, "C19.ph", P.ident, loc_of(shared_[0][1][0], shared_[0][1][1]) if shared_ else loc_of(en),
+               "the handler keeps what it saved on the instance (no mutable object of the class body is written through self)",
+               (f"`{shared_[0][0]}` is created once in the class body and {shared_[0][1][0].name} writes into it through self: every handler shares that object, so a second pool context that is "
+                "entered while the first is open (nested, or on another Aspire instance) overwrites what the first saved, and leaving the first 'restores' the other's callables") if shared_ else "",
+               disc="shared-state")
     ev, ret = fold(repo, en, P, max_depth=1)
     saved = {a: v for (o, a), v in ev.heap.items() if o == SELF and a.startswith("original_")}
     oll = saved.get("original_log_likelihood")
@@ -301,12 +333,12 @@ def run(ctx):
                "no closure of the pool handler reads a loop variable late",
                (f"{lbs[0][0].name}: a closure created in the loop at line {lbs[0][2].lineno} reads `{lbs[0][3]}` late: every saved / restoring callback refers to the last target only") if lbs else "",
                disc="late-binding")
-    ctx.decide(ok, "C19.ph", en.ident, loc_of(en), "__enter__ saves the instance's log_likelihood and log_prior",
+    _decide(en, ok, "C19.ph", en.ident, loc_of(en), "__enter__ saves the instance's log_likelihood and log_prior",
                f"__enter__ saves {{{', '.join(f'{k}: {T.show(v)[:50]}' for k, v in saved.items())}}}", disc="save")
     st = sorted([(s[5], s[0], s[1]) for s in ev.stores], key=lambda x: x[0])
     first_repl = min((q for q, o, a in st if o == inst and a in ("log_likelihood", "log_prior")), default=None)
     last_save = max((q for q, o, a in st if o == SELF and a.startswith("original_")), default=None)
-    ctx.decide(first_repl is None or (last_save is not None and last_save < first_repl), "C19.ph", en.ident, loc_of(en),
+    _decide(en, first_repl is None or (last_save is not None and last_save < first_repl), "C19.ph", en.ident, loc_of(en),
                "both originals are saved before anything is replaced", "a callable is replaced before both originals have been saved", disc="order")
     for name in ("log_likelihood", "log_prior"):
         v = ev.heap.get((inst, name))
@@ -314,7 +346,7 @@ def run(ctx):
             continue
         leaves = [l for l in T.phi_leaves(v) if l != tgt(name)]
         okw = all(l[0] == "f" and l[1].endswith("partial") and l[2] and l[2][0] == tgt(name) for l in leaves) and leaves
-        ctx.decide(bool(okw), "C19.ph", en.ident, loc_of(en), f"the temporary {name} wraps the saved original",
+        _decide(en, bool(okw), "C19.ph", en.ident, loc_of(en), f"the temporary {name} wraps the saved original",
                    f"the temporary {name} is {T.show(v)[:120]}, which does not wrap the saved original", disc=f"wrap-{name}")
     # __exit__
     ev, ret = fold(repo, ex, P, max_depth=1)
@@ -324,18 +356,51 @@ def run(ctx):
     for name in ("log_likelihood", "log_prior"):
         vals = [v for (o, a), v in ev.heap.items() if a == name]
         okr = okr and vals == [self_attr(f"original_{name}")]
-    ctx.decide(okr, "C19.ph", ex.ident, loc_of(ex), "__exit__ reassigns both saved originals unconditionally",
+    _decide(ex, okr, "C19.ph", ex.ident, loc_of(ex), "__exit__ reassigns both saved originals unconditionally",
                "__exit__ does not unconditionally reassign both saved originals (a conditional or partial restore leaves the pool-aware callable installed)", disc="restore")
     # restore before anything that can raise; close only under close_pool
     body = [s for s in ex.node.body if not (isinstance(s, ast.Expr) and isinstance(s.value, ast.Constant))]
     restore_idx = [i for i, s in enumerate(body) if isinstance(s, ast.Assign) and isinstance(s.targets[0], ast.Attribute) and s.targets[0].attr in ("log_likelihood", "log_prior")]
     first_other = min((i for i, s in enumerate(body) if i not in restore_idx), default=len(body))
-    ctx.decide(len(restore_idx) == 2 and max(restore_idx) < first_other, "C19.ph", ex.ident, loc_of(ex), "the restores are the first statements of __exit__ (nothing that may raise precedes them)",
+    _decide(ex, len(restore_idx) == 2 and max(restore_idx) < first_other, "C19.ph", ex.ident, loc_of(ex), "the restores are the first statements of __exit__ (nothing that may raise precedes them)",
                "statements that may raise precede the restores in __exit__", disc="first")
     closes = [e for e in ev.events if e.callee in ("method:close", "method:join", "method:terminate")]
-    okc = all(any(c == self_attr("close_pool") and pol for c, pol in e.conds) for e in closes) and closes
+    def _conj(conds):
+        for c, pol in conds:
+            if c and c[0] == "and" and pol:
+                yield from _conj([(x_, True) for x_ in c[1]])
+            else:
+                yield c, pol
+    okc = all(any(c == self_attr("close_pool") and pol for c, pol in _conj(e.conds)) for e in closes) and closes
     ctx.decide(bool(okc), "C19.ph", ex.ident, loc_of(ex), "the pool is closed and joined only when close_pool is set",
                "the pool is closed regardless of close_pool (or never)", disc="close")
+    # a state __enter__ provides for (no pool) must not make __exit__ raise: the AttributeError would replace the exception of the with-body
+    from .common import null_contradictions
+    nc = null_contradictions(P)
+    ctx.decide(not nc, "C19.ph", P.ident, loc_of(nc[0][0], nc[0][1]) if nc else loc_of(ex),
+               "no attribute of the handler is compared with None in one method and dereferenced without that test in another",
+               (f"{nc[0][0].name} dereferences self.{nc[0][2]} (`{ast.unparse(nc[0][1])}`) with no None test in force, while another method of the handler provides for self.{nc[0][2]} "
+                f"being None: with that value the context is entered normally and leaving it raises AttributeError -- also when the with-body raised, so the body's exception does not propagate as itself") if nc else "",
+               disc="none-state")
+    # one handler object entered twice (with h: with h: ...): the second __enter__ must not overwrite what the first saved.  Accepted: a guard at the top of
+    # __enter__ that raises / returns when the handler is already entered, or saves kept on a stack (append on entry, pop on exit).
+    def _reentry_safe():
+        first_save = min((n_.lineno for n_ in walk_no_nested(en.node) if isinstance(n_, ast.Assign) and any(
+            isinstance(t_, ast.Attribute) and isinstance(t_.value, ast.Name) and t_.value.id == "self" and t_.attr.startswith("original") for t_ in n_.targets)), default=None)
+        for st_ in en.node.body:
+            if first_save is not None and st_.lineno >= first_save:
+                break
+            if isinstance(st_, ast.If) and st_.body and isinstance(st_.body[-1], (ast.Raise, ast.Return)) and any(
+                    isinstance(x_, ast.Attribute) and isinstance(x_.value, ast.Name) and x_.value.id == "self" for x_ in ast.walk(st_.test)):
+                return True
+        pushes = any(isinstance(n_, ast.Call) and isinstance(n_.func, ast.Attribute) and n_.func.attr == "append" and isinstance(n_.func.value, ast.Attribute)
+                     and isinstance(n_.func.value.value, ast.Name) and n_.func.value.value.id == "self" for n_ in walk_no_nested(en.node))
+        pops = any(isinstance(n_, ast.Call) and isinstance(n_.func, ast.Attribute) and n_.func.attr == "pop" and isinstance(n_.func.value, ast.Attribute)
+                   and isinstance(n_.func.value.value, ast.Name) and n_.func.value.value.id == "self" for n_ in walk_no_nested(ex.node))
+        return pushes and pops
+    ctx.decide(_reentry_safe(), "C19.ph", en.ident, loc_of(en), "entering a handler that is already entered cannot overwrite the saved originals (guard or stack)",
+               "__enter__ stores the current callables in the same attributes every time it runs: entered a second time on the same object (with h: with h: ...) it saves the "
+               "pool-aware wrappers of the first entry over the originals, and leaving both levels restores the wrappers", disc="reentry")
     okn = T.strip_raise(ret) == T.NONE
     ctx.decide(okn, "C19.ph", ex.ident, loc_of(ex), "__exit__ returns None: exceptions from the with-body propagate",
                f"__exit__ returns {T.show(ret)[:60]}: a truthy value would swallow exceptions", disc="return")
@@ -381,12 +446,12 @@ MUTANTS = [
     M("restore only on success", _A, "try:\n            yield self\n        finally:\n            if prev is None:", "try:\n            yield self\n        except Exception:\n            raise\n        else:\n            if prev is None:", "C19.ac"),
     M("restore branches swapped", _A, "finally:\n            if prev is None:", "finally:\n            if prev is not None:", "C19.ac"),
     M("work between overwrite and try", _A, "\"saved_flow\": False,\n        }\n        try:", "\"saved_flow\": False,\n        }\n        AspireFile(path, \"a\").close()\n        try:", "C19.ac"),
-    M("exit restores the likelihood only", _U, "self.aspire_instance.log_prior = self.original_log_prior\n        if self.close_pool:", "if self.close_pool:", "C19.ph"),
-    M("exit restores only when a pool was given", _U, "self.aspire_instance.log_likelihood = self.original_log_likelihood\n        self.aspire_instance.log_prior = self.original_log_prior\n        if self.close_pool:",
-      "if self.pool is not None:\n            self.aspire_instance.log_likelihood = self.original_log_likelihood\n            self.aspire_instance.log_prior = self.original_log_prior\n        if self.close_pool:", "C19.ph"),
-    M("pool closed before the restore", _U, "self.aspire_instance.log_likelihood = self.original_log_likelihood\n        self.aspire_instance.log_prior = self.original_log_prior\n        if self.close_pool:\n            logger.debug(\"Closing pool\")\n            self.pool.close()\n            self.pool.join()\n        else:\n            logger.debug(\"Not closing pool\")",
-      "if self.close_pool:\n            self.pool.close()\n            self.pool.join()\n        self.aspire_instance.log_likelihood = self.original_log_likelihood\n        self.aspire_instance.log_prior = self.original_log_prior", "C19.ph"),
-    M("pool always closed", _U, "if self.close_pool:\n            logger.debug(\"Closing pool\")\n            self.pool.close()", "if True:\n            logger.debug(\"Closing pool\")\n            self.pool.close()", "C19.ph"),
+    M("exit restores the likelihood only", _U, "self.aspire_instance.log_prior = self.original_log_prior\n        if self.close_pool and self.pool is not None:", "if self.close_pool and self.pool is not None:", "C19.ph"),
+    M("exit restores only when a pool was given", _U, "self.aspire_instance.log_likelihood = self.original_log_likelihood\n        self.aspire_instance.log_prior = self.original_log_prior\n        if self.close_pool and self.pool is not None:",
+      "if self.pool is not None:\n            self.aspire_instance.log_likelihood = self.original_log_likelihood\n            self.aspire_instance.log_prior = self.original_log_prior\n        if self.close_pool and self.pool is not None:", "C19.ph"),
+    M("pool closed before the restore", _U, "self.aspire_instance.log_likelihood = self.original_log_likelihood\n        self.aspire_instance.log_prior = self.original_log_prior\n        if self.close_pool and self.pool is not None:\n            logger.debug(\"Closing pool\")\n            self.pool.close()\n            self.pool.join()\n        else:\n            logger.debug(\"Not closing pool\")",
+      "if self.close_pool and self.pool is not None:\n            self.pool.close()\n            self.pool.join()\n        self.aspire_instance.log_likelihood = self.original_log_likelihood\n        self.aspire_instance.log_prior = self.original_log_prior", "C19.ph"),
+    M("pool always closed", _U, "if self.close_pool and self.pool is not None:\n            logger.debug(\"Closing pool\")\n            self.pool.close()", "if True:\n            logger.debug(\"Closing pool\")\n            self.pool.close()", "C19.ph"),
     M("exit swallows exceptions", _U, "else:\n            logger.debug(\"Not closing pool\")", "else:\n            logger.debug(\"Not closing pool\")\n        return True", "C19.ph"),
     M("enter saves after replacing", _U, "self.original_log_prior = self.aspire_instance.log_prior\n        if self.pool is not None:", "if self.pool is not None:", "C19.ph",
       more=[("return self.pool\n\n    def __exit__", "self.original_log_prior = self.aspire_instance.log_prior\n        return self.pool\n\n    def __exit__")]),
@@ -407,7 +472,22 @@ MUTANTS += [
 MUTANTS += [
     M("unspecified options of a nested context are taken from the enclosing defaults", _A, "\"save_config\": save_config,", "\"save_config\": save_config if save_config is not None else (prev or {}).get(\"save_config\", True),", "C19.ac"),
 ]
+MUTANTS += [
+    M("exit closes a pool that may be None", _U, "if self.close_pool and self.pool is not None:\n            logger.debug(\"Closing pool\")", "if self.close_pool:\n            logger.debug(\"Closing pool\")", "C19.ph"),
+]
+
+MUTANTS += [
+    M("saved callables also kept in a dict created in the class body", _U, "def __enter__(self):\n        self.original_log_likelihood = self.aspire_instance.log_likelihood",
+      "_saved: dict = {}\n\n    def __enter__(self):\n        self._saved[\"log_likelihood\"] = self.aspire_instance.log_likelihood\n        self.original_log_likelihood = self.aspire_instance.log_likelihood", "C19.ph", within="PoolHandler"),
+]
+
 NEUTRALS = [
+    M("handler refuses to be entered twice (repairs the re-entry finding)", _U, "def __enter__(self):\n        self.original_log_likelihood = self.aspire_instance.log_likelihood",
+      "def __enter__(self):\n        if getattr(self, \"_entered\", False):\n            raise RuntimeError(\"PoolHandler is already entered\")\n        self._entered = True\n        self.original_log_likelihood = self.aspire_instance.log_likelihood",
+      within="PoolHandler", more=[("self.aspire_instance.log_prior = self.original_log_prior\n        if self.close_pool", "self.aspire_instance.log_prior = self.original_log_prior\n        self._entered = False\n        if self.close_pool")]),
+    M("saved callables also kept in a dict created per handler", _U, "def __enter__(self):\n        self.original_log_likelihood = self.aspire_instance.log_likelihood",
+      "_saved: dict = {}\n\n    def __enter__(self):\n        self._saved = {}\n        self._saved[\"log_likelihood\"] = self.aspire_instance.log_likelihood\n        self.original_log_likelihood = self.aspire_instance.log_likelihood", within="PoolHandler"),
+    M("no-pool state handled by an early return after the restore", _U, "if self.close_pool and self.pool is not None:\n            logger.debug(\"Closing pool\")", "if self.pool is None:\n            return\n        if self.close_pool:\n            logger.debug(\"Closing pool\")"),
     M("clean-up logs before and does work after the restore", _A, "finally:\n            if prev is None:\n                if hasattr(self, \"_checkpoint_defaults\"):\n                    delattr(self, \"_checkpoint_defaults\")\n            else:\n                self._checkpoint_defaults = prev",
       "finally:\n            logger.debug(\"leaving auto_checkpoint\")\n            if prev is None:\n                if hasattr(self, \"_checkpoint_defaults\"):\n                    delattr(self, \"_checkpoint_defaults\")\n            else:\n                self._checkpoint_defaults = prev\n            AspireFile(path, \"a\").close()"),
     M("delete through the instance dict", _A, "if hasattr(self, \"_checkpoint_defaults\"):\n                    delattr(self, \"_checkpoint_defaults\")", "self.__dict__.pop(\"_checkpoint_defaults\", None)"),
